@@ -150,9 +150,16 @@ func init() {
 			if path == model.PathUnsafe {
 				caps = []int{1}
 			}
+			cf := cfgs(caps, []int{0}, []api.RelMode{api.RelByIdx}, relUniverse)
+			if path == model.PathMapN {
+				cf = autoPad(cf, 1)
+				if t == Thorough {
+					cf = autoPad(cf, 2)
+				}
+			}
 			scs = append(scs, &engine.Scenario{
 				Name:     "C04-relations/" + path.String(),
-				Cfgs:     cfgs(caps, []int{0}, []api.RelMode{api.RelByIdx}, relUniverse),
+				Cfgs:     cf,
 				Filters:  relFilters(),
 				Slots:    1,
 				Oracle:   drv.Oracle{World: true, Typed: true, Family: relFamily(), Filters: true, Lock: true},
